@@ -254,6 +254,42 @@ class CFG:
         d = self.dominators()
         return pb[0] in d and pa[0] in d[pb[0]]
 
+    def postdominators(self):
+        """post-dominator sets per block (exit = function exit; blocks ending in a noreturn call count as exits)"""
+        if getattr(self, "_pdom", None) is not None:
+            return self._pdom
+        nodes = set(self.blocks)
+        succ = {b: list(self.succ[b]) for b in nodes}
+        for b, blk in self.blocks.items():
+            if blk.get("noreturn") and self.exit not in succ[b]:
+                succ[b].append(self.exit)
+        pdom = {b: set(nodes) for b in nodes}
+        pdom[self.exit] = {self.exit}
+        changed = True
+        while changed:
+            changed = False
+            for b in nodes:
+                if b == self.exit:
+                    continue
+                ss = succ[b]
+                if not ss:
+                    new = {b}
+                else:
+                    new = set.intersection(*(pdom[x] for x in ss)) | {b}
+                if new != pdom[b]:
+                    pdom[b] = new
+                    changed = True
+        self._pdom = pdom
+        return pdom
+
+    def postdominates(self, pa, pb):
+        """position pa is on every path from pb to the function exit"""
+        if pa is None or pb is None:
+            return False
+        if pa[0] == pb[0]:
+            return pa[1] >= pb[1]
+        return pa[0] in self.postdominators().get(pb[0], ())
+
     def edge_kind(self, b, s):
         """'T' / 'F' / case-index for the edge b->s of a two-way branch."""
         ss = self.blocks[b]["s"]
